@@ -121,7 +121,7 @@ var (
 	reBlock = regexp.MustCompile(`Error: Invariant \S+ is violated`)
 	reL     = regexp.MustCompile(`(?m)^/\\ l = (\d+)`)
 	reWhy   = regexp.MustCompile(`why \|->\s*"([^"]*)"`)
-	reRej   = regexp.MustCompile(`(?m)^<<"REJECT", (\d+), "([^"]*)">>`)
+	reRej   = regexp.MustCompile(`<<\s*"REJECT",\s*(\d+),\s*"([^"]*)"\s*>>`)
 )
 
 // ParseRejects extracts, from a TLC run with -continue over a deterministic
